@@ -701,6 +701,9 @@ class LMDBStorage(BaseStorage):
             raise AuthenticationError("restricted: permission denied")
 
         if not event.is_ephemeral:
+            # the event is acknowledged now and written later by the writer thread:
+            # refuse here what that thread would not be able to write
+            self.check_storable(event)
             with self.db.begin(buffers=True) as txn:
                 if get_event_data(txn, event.id_bytes):
                     # already stored: don't write or announce it again
@@ -708,6 +711,25 @@ class LMDBStorage(BaseStorage):
             self.writer_queue.put(("add", [event]))
         await self.post_save(event)
         return event, True
+
+    def check_storable(self, event: Event):
+        """
+        Index keys hold the timestamp and the kind in four bytes each and are
+        limited in length by LMDB: an event beyond that cannot be stored
+        """
+        try:
+            event.created_at.to_bytes(4, "big")
+            longest = max(
+                len(key)
+                for name, index in INDEXES.items()
+                if name not in ("ids", "search")
+                for key in index.convert(event)
+            )
+        except (OverflowError, ValueError, TypeError, AttributeError) as e:
+            raise StorageError(f"invalid: cannot be stored ({e})")
+        # key, separator, timestamp, separator, event id
+        if longest + 38 > self.db.max_key_size():
+            raise StorageError("invalid: tag value too long")
 
     async def post_save(self, event: Event, **kwargs):
         await self.notify_all_connected(event)
